@@ -128,7 +128,7 @@ Ltac fields := cbn [limit maxt value waiters loops tasks started processed stop 
 
 Theorem Inv_step s e s' : Inv s -> step_ev s e = Some s' -> Inv s'.
 Proof.
-  intros [Hn Hl Hv Hc Hm Hs] H. destruct e as [q m|q|q|q|q|q|q|m| |q|q m]; cbn [step_ev] in H.
+  intros [Hn Hl Hv Hc Hm Hs] H. destruct e as [q m|q|q|q|q|q|q|m| |q|q m|q]; cbn [step_ev] in H.
   - (* deliver *)
     destruct (get_loop q (loops s)) as [[q' st p]|] eqn:Eg; [|discriminate]. destruct st; try discriminate.
     destruct (take_msg q (backlog s)) as [[m' b']|]; [|discriminate]. destruct ((m' =? m) && negb p); [|discriminate].
@@ -221,9 +221,14 @@ Proof.
   - (* cancel loop *)
     destruct (negb (stop s)); [discriminate|].
     destruct (get_loop q (loops s)) as [[q' st p]|] eqn:Eg; [|discriminate].
-    destruct st; try discriminate; try (inversion H; subst; clear H; constructor; fields; try assumption;
-      [rewrite names_set_loop; exact Hn | rewrite (slots_set_loop q _ p _ _ Hn Eg); cbn [holds_slot l_st]; lia]).
-    all: inversion H; subst; clear H;
+    destruct st; try discriminate.
+    + inversion H; subst; clear H; constructor; fields; try assumption;
+        [rewrite names_set_loop; exact Hn | rewrite (slots_set_loop q _ p _ _ Hn Eg); cbn [holds_slot l_st]; lia].
+    + inversion H; subst; clear H; constructor; fields; try assumption;
+        [rewrite names_set_loop; exact Hn | rewrite (slots_set_loop q _ p _ _ Hn Eg); cbn [holds_slot l_st]; lia].
+    + inversion H; subst; clear H; constructor; fields; try assumption;
+        [rewrite names_set_loop; exact Hn | rewrite (slots_set_loop q _ p _ _ Hn Eg); cbn [holds_slot l_st]; lia].
+    + inversion H; subst; clear H;
       match goal with |- Inv (release ?s0) =>
         destruct (release_fields s0) as [R1 [R2 [R3 [R4 [R5 [R6 [R7 [R8 [R9 R10]]]]]]]]];
         assert (Hn0 : NoDup (map l_q (loops s0))) by (cbn [loops upd]; rewrite names_set_loop; exact Hn);
@@ -237,8 +242,29 @@ Proof.
        | rewrite R3, R4, R5; exact Hc
        | rewrite R2, R4; exact Hm
        | rewrite R2, R5, R6; exact Hs ]).
+    + inversion H; subst; clear H;
+      match goal with |- Inv (release ?s0) =>
+        destruct (release_fields s0) as [R1 [R2 [R3 [R4 [R5 [R6 [R7 [R8 [R9 R10]]]]]]]]];
+        assert (Hn0 : NoDup (map l_q (loops s0))) by (cbn [loops upd]; rewrite names_set_loop; exact Hn);
+        pose proof (total_release s0 Hn0) as Ht; unfold total in Ht; fields;
+        rewrite (slots_set_loop q _ p _ _ Hn Eg) in Ht; cbn [holds_slot l_st] in Ht
+      end;
+      (constructor; fields;
+       [ rewrite R9; cbn [loops upd]; rewrite names_set_loop; exact Hn
+       | rewrite R1, R3 in *; fields; lia
+       | lia
+       | rewrite R3, R4, R5; exact Hc
+       | rewrite R2, R4; exact Hm
+       | rewrite R2, R5, R6; exact Hs ]).
+    + inversion H; subst; clear H. constructor; assumption.
+    + inversion H; subst; clear H. constructor; assumption.
   - (* enqueue *)
     inversion H; subst; clear H. constructor; fields; assumption.
+  - (* cancel lost *)
+    destruct (negb (stop s)); [discriminate|].
+    destruct (get_loop q (loops s)) as [[q' st p]|] eqn:Eg; [|discriminate]. destruct st; try discriminate.
+    inversion H; subst; clear H; constructor; fields; try assumption;
+      [rewrite names_set_loop; exact Hn | rewrite (slots_set_loop q _ p _ _ Hn Eg); cbn [holds_slot l_st]; lia].
 Qed.
 
 Theorem Inv_run es : forall s s', Inv s -> run_ev s es = Some s' -> Inv s'.
@@ -420,7 +446,7 @@ Proof. intros Ha Hn. unfold release. apply WInv_wake; cbn [waiters loops upd]; a
 
 Theorem WInv_step s e s' : WInv s -> step_ev s e = Some s' -> WInv s'.
 Proof.
-  intros W H. pose proof W as [Ha Hn Hv]. destruct e as [q m|q|q|q|q|q|q|m| |q|q m]; cbn [step_ev] in H.
+  intros W H. pose proof W as [Ha Hn Hv]. destruct e as [q m|q|q|q|q|q|q|m| |q|q m|q]; cbn [step_ev] in H.
   - destruct (get_loop q (loops s)) as [[q' st p]|] eqn:Eg; [|discriminate]. destruct st; try discriminate.
     destruct (take_msg q (backlog s)) as [[m' b']|]; [|discriminate]. destruct ((m' =? m) && negb p); [|discriminate].
     inversion H; subst; clear H. constructor; cbn [waiters loops value upd]; [|assumption|].
@@ -496,9 +522,15 @@ Proof.
         intros Hc. rewrite Hc in Hne. apply Hne. reflexivity.
     + apply WInv_release; cbn [waiters loops value upd]; [apply Hother; discriminate | assumption].
     + apply WInv_release; cbn [waiters loops value upd]; [apply Hother; discriminate | assumption].
-    + constructor; cbn [waiters loops value upd]; [apply Hother; discriminate | assumption |].
-      intros Hw Hp. eapply granted_preserved; [exact Eg | reflexivity | auto].
+    + exact W.
+    + exact W.
   - inversion H; subst; clear H. constructor; cbn [waiters loops value upd]; assumption.
+  - destruct (negb (stop s)); [discriminate|].
+    destruct (get_loop q (loops s)) as [[q' st p]|] eqn:Eg; [|discriminate]. destruct st; try discriminate.
+    inversion H; subst; clear H. constructor; cbn [waiters loops value upd]; [|assumption|].
+    + intros q0 Hin. apply waiting_set_other; [|apply Ha; exact Hin]. intros ->.
+      apply (not_waiting_if _ _ _ Eg); [cbn; discriminate | apply Ha; exact Hin].
+    + intros Hw Hp. eapply granted_preserved; [exact Eg | reflexivity | auto].
 Qed.
 
 Lemma WInv_init lim mx qs : WInv (init lim mx qs).
